@@ -379,6 +379,8 @@ structure ADMMArgs (α : Type) where
   verbose : Bool := false
   /-- the optional step-parameter update hook `rho_update(rho, r_primal, tol_primal, r_dual, tol_dual)` -/
   rho_update : Option (α → α → α → α → α → α) := none
+  absolute_tolerance : α
+  relative_tolerance : α
 
 /-- `args.rho_update(...)` (only reached under `if args.rho_update:`); without a hook the step parameter stays -/
 def callRhoUpdate {α} (f : Option (α → α → α → α → α → α)) (rho rp tp rd td : α) : α :=
